@@ -696,13 +696,19 @@ def snapshotCloseShape : List String := ["if(closed-cas)", "version.Release", "c
 def nextFileNumber : List String := ["mutex.Lock", "defer:mutex.Unlock", "nextFileNumber.Inc"]
 /-- `family.rollup` (source side): the `DeleteRollupFile` records of a target are created only after
 that target's `doRollupWork` succeeded; the commit follows the loop; deleteObsoleteFiles is
-deferred. A job whose targets are all absent / failing therefore commits nothing and reduces to
-its deferred deleteObsoleteFiles (the model's `delObs` job); a job whose targets succeeded ends
-with the model's `rollupDone` commit. -/
+deferred: the model's `rollupJob` (`jRollupStart`, the commit steps, then `doStart`…). A job whose
+targets are all absent / failing commits nothing (empty edit log) and reduces to its deferred
+deleteObsoleteFiles. -/
 def rollupJob : List String :=
   ["rolluping.CompareAndSwap", "defer{", "f.deleteObsoleteFiles", "}", "familyVersion.GetLiveRollupFiles",
    "GetStoreManager().GetStoreByName", "targetStore.CreateFamily", "targetFamily.doRollupWork",
    "version.CreateDeleteRollupFile", "f.commitEditLog", "targetFamily.cleanReferenceFiles"]
+/-- `family.rollup`, the loop over the target intervals (what `rollupDels true` mirrors): the records
+`CreateDeleteRollupFile(file, targetInterval)` are created inside the loop, after `doRollupWork` of
+that target (skipped / failing targets `continue` before it), for `file ∈ files = rollupMap[targetInterval]` -/
+def rollupDelShape : List String :=
+  ["for:targetInterval,files=range:rollupMap", "targetFamily.doRollupWork", "for:file=range:files",
+   "CreateDeleteRollupFile(file,targetInterval)", "endfor", "endfor"]
 /-- `family.newTableBuilder`: `jAlloc` (number + pending mark) before `jCreate` (file) -/
 def newTableBuilder : List String := ["store.nextFileNumber", "f.addPendingOutput", "table.NewStoreBuilder"]
 /-- `family.deleteObsoleteFiles`: `doList`, `doPend`, `doActive`, `doRollup`, then `doEvict` before `doRemove` -/
